@@ -16,4 +16,15 @@ PROPS = {
         assumptions=['ing_raw_on_success: an ingester returns a raw record whenever it reports success '
                      '(proved for the built-in ingester; required of caller-supplied ones)'],
     ),
+    'C04': dict(
+        harness='c04', props='Props/C04.v', models=['Base/Tree.v', 'Model/Stream.v'],
+        trusted=['encoding/xml and encoding/json tokenisers: the token stream is a function of the document (checked per case: '
+                 'the tokens an independent decoder returns equal xevents/jevents of the document rebuilt from them)',
+                 'antchfx/xpath engine: for targets of the class its result is sel pm pred (path predicate on the element-name chain, '
+                 'final predicates on the candidate subtree); validated per case against idr.MatchAll on the fully loaded document',
+                 'XML namespace resolution (space2prefix) is outside the model: tokens carry the resolved prefix/URI'],
+        assumptions=['xml_no_doc_target: the path part does not select the XML document node itself (targets "." and "/" make the '
+                     'XML reader deliver the top-level elements instead)',
+                     'releases are of the node the last Read returned (or absent)'],
+    ),
 }
